@@ -156,8 +156,14 @@ def task_container_search(pr, repo):
         pr.explore(ex, thunk, 'find_non_covalently_coupled_groups ' + layout)
 
 
+def task_average_marks(pr, repo):
+    # the conformation average leaves each conformation's coupling marks alone (C08-AV frame)
+    from . import C08
+    C08.task_average(pr, repo, 2)
+
+
 def run(pr, repo):
-    pr.parallel([(C02.task_swap, ()), (C02.task_swap_once, ()), (task_involution, ()), (task_couple, ()), (task_identify, ()), (task_container_search, ()),
+    pr.parallel([(C02.task_swap, ()), (C02.task_swap_once, ()), (task_involution, ()), (task_couple, ()), (task_identify, ()), (task_container_search, ()), (task_average_marks, ()),
                  (C02.task_render, ())])
     pr.assumptions += ['A-REAL: after the swap back the determinant LIST ORDER differs, so float sums may differ in the last ulp; '
                        '"undone exactly" is proved for the multisets and over the reals, and monitored to 1e-9 in floats',
